@@ -51,6 +51,12 @@ structure DState where
   bak  : Side := {}
   mh   : MhState := {}
   nt   : DNotify.NtState := {}
+  crashPre : Spec := ⟨[], 0⟩          -- L0 state before the operation in flight
+  crashOp : List String := []        -- the operation in flight (tokens)
+  crashArmed : Bool := false
+  crashBases : List Int := []        -- segment bases from the listing before the operation in flight
+  ackW : Int := 0                    -- last offset acknowledged as durable (Sync / AutoSync publish / Close)
+  autosync : Bool := false
   line : Nat := 0
   diffs : Nat := 0
   viols : Nat := 0
@@ -439,6 +445,54 @@ def handle (sd : Side) (op : List String) (impl : List String) : Handled :=
     else { side := sd, model := "bad-op" }
   | _ => { side := sd, model := "bad-op" }
 
+/-- Parse the observation of a crash / power-loss image:
+`ok <next> <n> msgs… views=… again=… append=…`. -/
+def parseImage (impl : List String) : Option (Int × List Msg × String × String × String) :=
+  match impl with
+  | "ok" :: nx :: rest =>
+    let flags := rest.filter (fun t => t.startsWith "views=" ∨ t.startsWith "again=" ∨ t.startsWith "append=")
+    let msgsToks := rest.filter (fun t => !(t.startsWith "views=" ∨ t.startsWith "again=" ∨ t.startsWith "append="))
+    match nx.toInt?, parseMsgs msgsToks with
+    | some n, some ms =>
+      let get := fun (k : String) => ((flags.find? (·.startsWith k)).map (fun t => (t.drop k.length).toString)).getD "?"
+      some (n, ms, get "views=", get "again=", get "append=")
+    | _, _ => none
+  | _ => none
+
+/-- C05: what a crash image may recover to, given the L0 states before and after the
+operation in flight. -/
+def judgeCrash (pre post : Spec) (op : List String) (impl : List String) : List String :=
+  match parseImage impl with
+  | none => ["CrashOpenFails"]
+  | some (n, L, views, again, app) =>
+    let kind := op.headD ""
+    let contentOK :=
+      if kind = "pub" then
+        -- acknowledged messages, possibly followed by a prefix of the batch in flight
+        L.length ≥ pre.live.length && L.take pre.live.length == pre.live &&
+          decide (L <+: post.live)
+      else if kind = "del" then L == pre.live || L == post.live     -- fully applied or not at all
+      else L == pre.live
+    (if contentOK then [] else ["CrashContent"]) ++
+    (if n ≥ pre.next then [] else ["CrashNextBackwards"]) ++
+    (if L.all (fun m => decide (m.off < n)) then [] else ["CrashNextBelowLive"]) ++
+    (if views = "ok" then [] else ["CrashViews"]) ++
+    (if again = "same" then [] else ["CrashRecoverAgain"]) ++
+    (if app = "ok" then [] else ["CrashAppend"])
+
+/-- C06: after losing unsynced data, everything below the acknowledged offset survives, the
+survivors are a prefix of what was acknowledged, NextOffset is at least that offset. -/
+def judgeLoss (ack : Spec) (w : Int) (impl : List String) : List String :=
+  match parseImage impl with
+  | none => ["LossOpenFails"]
+  | some (n, L, views, again, app) =>
+    (if L.filter (fun m => decide (m.off < w)) == ack.live.filter (fun m => decide (m.off < w)) then [] else ["LossBelowSync"]) ++
+    (if decide (L <+: ack.live) then [] else ["LossNotPrefix"]) ++
+    (if n ≥ w then [] else ["LossNextBelowSync"]) ++
+    (if views = "ok" then [] else ["LossViews"]) ++
+    (if again = "same" then [] else ["LossRecoverAgain"]) ++
+    (if app = "ok" then [] else ["LossAppend"])
+
 /-- The `lock` profile: returns the new state, the model's result and L0 violations. -/
 def handleMh (m : MhState) (op impl : List String) : MhState × String × List String :=
   let rel := Klev.Gen.openReleasesLockOnError
@@ -488,7 +542,7 @@ def processLine (st : DState) (raw : String) : DState :=
   if line = "" then st
   else if line.startsWith "#" then
     if line.startsWith "# hist" then
-      { st with main := {}, bak := {}, hists := st.hists + 1 }
+      { st with main := {}, bak := {}, hists := st.hists + 1, ackW := 0, autosync := false, crashArmed := false }
     else st
   else
     match line.splitOn " => " with
@@ -502,6 +556,40 @@ def processLine (st : DState) (raw : String) : DState :=
       match opToks with
       | [] => st
       | op0 :: restOps =>
+        if op0 = "crash.begin" then
+          { st with crashPre := st.main.spec, crashOp := [], crashArmed := true, counts := bump st.counts op0,
+                    crashBases := (st.main.fsVers.getD []).map (·.1) }
+        else if op0 = "crash.end" then
+          { st with crashArmed := false, counts := bump st.counts op0 }
+        else if op0 = "crash.img" then
+          let vs := judgeCrash st.crashPre st.main.spec st.crashOp implToks
+          -- a delete that removes the first message of its target segment but not all of it
+          -- renames the rewritten segment to a new base ("rebase")
+          let rebase : Bool := match st.crashOp, st.crashBases with
+            | ["del", offsS], bases =>
+              let offs := (parseInts offsS).getD []
+              (match offs with
+               | [] => false
+               | _ =>
+                 let lowest := minOff offs
+                 let tb := (bases.filter (fun b => decide (b ≤ lowest))).getLast?
+                 match tb with
+                 | some b =>
+                   let nextB := (bases.filter (fun x => decide (b < x))).head?
+                   let segLive := st.crashPre.live.filter (fun m => decide (b ≤ m.off) && (match nextB with | some nb => decide (m.off < nb) | none => true))
+                   let survivors := segLive.filter (fun m => !offs.contains m.off)
+                   (match segLive.head? with
+                    | some f => offs.contains f.off && !survivors.isEmpty
+                    | none => false)
+                 | none => false)
+            | _, _ => false
+          let out := vs.foldl (fun o v => o.push s!"VIOL {st.line} {v} {lhs} inflight={String.intercalate " " (st.crashOp.take 3)} rebase={if rebase then 1 else 0} impl={(String.intercalate " " implToks).take 300}") st.out
+          { st with out := out, viols := st.viols + vs.length, counts := bump st.counts ("crash.img:" ++ (st.crashOp.headD "?")) }
+        else if op0 = "loss.img" then
+          let vs := judgeLoss st.main.spec st.ackW implToks
+          let out := vs.foldl (fun o v => o.push s!"VIOL {st.line} {v} {lhs} w={st.ackW} impl={(String.intercalate " " implToks).take 300}") st.out
+          { st with out := out, viols := st.viols + vs.length, counts := bump st.counts "loss.img" }
+        else
         if op0.startsWith "nt." then
           let (n', model, vs) := DNotify.handle st.nt opToks implToks
           let implTxt := String.intercalate " " implToks
@@ -558,6 +646,15 @@ def processLine (st : DState) (raw : String) : DState :=
           let st := { st with counts := counts, out := out,
                               diffs := st.diffs + (if mdiff then 1 else 0),
                               viols := st.viols + h.viols.length }
+          let st := if st.crashArmed && st.crashOp.isEmpty && !isB then { st with crashOp := opName :: restOps } else st
+          -- durability acknowledgements (C06)
+          let st := if isB then st else
+            match opName, implToks with
+            | "sync", ["ok", n] => { st with ackW := n.toInt?.getD st.ackW }
+            | "pub", ["ok", n] => if st.autosync then { st with ackW := n.toInt?.getD st.ackW } else st
+            | "close", ["ok"] => { st with ackW := st.main.spec.next }
+            | "open", ["ok"] => { st with autosync := optBool restOps "as" }
+            | _, _ => st
           if isB then { st with bak := side' } else { st with main := side' }
     | _ => { st with out := st.out.push s!"BADLINE {st.line} {line}" }
 
